@@ -1,4 +1,5 @@
 import NxProofs.Timers
+import NxProofs.Silence
 import NxProofs.Gating
 import NxProps.C04
 /-!
@@ -11,13 +12,17 @@ will find the state that makes it raise / return (that a set `anyio.Event` or an
 waiter is anyio's behaviour: observed by the tie, not proved).
 
 Proved here: the release predicate after `cleanup`; closed is closed; the retransmission chain with its exact bound
-(`resend_chain`: the connect bound of the property). NOT proved: the general silence bound
-`ping_timeout + (resend_limit+1)·resend_timeout` for an established connection with several timers in flight — it is
-exercised exhaustively over crash points by the tie (every instant the model predicts is compared with the real
-endpoint), and stated here as the theorem that is missing:
-
-  theorem silence_bound : c.state ∈ {CONNECTED, DISCONNECTING} → (∃ ping timer ∈ c.sched, deadline ≤ now + pingTimeout) →
-      no input after `now` → (advance … (now + pingTimeout + (limit+1)·resendTimeout) c).Released
+(`resend_chain`: the connect bound of the property); and the general silence bound (`silence_bound`): for EVERY state
+in which some timer's chain runs out by `D` (`Conn.Doomed`), however many other timers are in flight and whatever they
+do when they fire (retransmit, re-arm, raise, find the link down), once the clock has passed `D` with no datagram
+heard the connection is `Dead` (DISCONNECTED, queues EOF, handshake and close events set). `Doomed` holds with
+`D = t + ping_timeout + (resend_limit+1)·resend_timeout` from the moment the keep-alive is armed at `t`
+(`served_is_doomed`, `connected_is_doomed`), with `D = t + (resend_limit+1)·resend_timeout` after any packet that
+wants an acknowledgement was sent at `t` (`unacked_is_doomed`), and it is re-established by every keep-alive that
+fires (`keepalive_rearms`), so the bound of the property counts from the last instant something was heard.
+Not proved: that every reachable CONNECTED state holds a keep-alive timer (it is armed by `serve` /
+`resumeHandshake` and only `cleanup` removes it; the tie observes every keep-alive of every crash-point session at its
+exact tick).
 -/
 namespace Nx.C02
 open Nx Nx.Prudp Nx.L1
@@ -73,6 +78,50 @@ theorem released_is_stable (env : Env) (fuel : Nat) (T : Time) (c : Conn) (h : c
     (Conn.advance env fuel T c).1 = c :=
   released_stable_advance env fuel T c h hs
 
+/-- **the silence bound** (see the header) -/
+theorem silence_bound (env : Env) (fuel T D : Nat) (c : Conn) (h : c.Doomed D) (hT : D ≤ T)
+    (hset : (Conn.advance env fuel T c).1.Settled T) : (Conn.advance env fuel T c).1.Dead :=
+  L1.silence_bound env fuel T D c h hT hset
+
+/-- doomed stays doomed (by the same instant) while only timers fire -/
+theorem doomed_is_stable (env : Env) (T D fuel : Nat) (c : Conn) (h : c.Doomed D) : (Conn.advance env fuel T c).1.Doomed D :=
+  advance_doomed env T D fuel c h
+
+/-- `Dead` is what the waiters look at: state, EOF on the queues, both events -/
+theorem dead_releases (c : Conn) (h : c.Dead) :
+    c.state = STATE_DISCONNECTED ∧ c.eof = true ∧ c.handshakeEvent = true ∧ c.closeEvent = true := h
+
+/-- a server-side connection is doomed from the moment it is accepted: keep-alive at `now + ping_timeout`, then the chain -/
+theorem served_is_doomed (c : Conn) (now : Time) :
+    (c.serve now).Doomed (now + c.pingTimeout + (c.resendLimit + 1) * c.resendTimeout) := by
+  refine Or.inr ⟨⟨0, now + c.pingTimeout, some c.pingTimeout, .ping⟩, ?_, ?_⟩
+  · simp [evs, Conn.serve, Sched.repeat]
+  · simp [tbound, Conn.serve]
+
+/-- a client connection is doomed from the moment `connect` returns -/
+theorem connected_is_doomed (c : Conn) (now : Time) (h1 : c.waitingHandshake = true) (h2 : c.handshakeEvent = true)
+    (h3 : c.state = STATE_CONNECTED) (h4 : c.sched.isSome) :
+    (c.resumeHandshake now).c.Doomed (now + c.pingTimeout + (c.resendLimit + 1) * c.resendTimeout) := by
+  unfold Conn.resumeHandshake
+  rw [if_pos ⟨h1, h2⟩, if_pos h3]
+  cases hs : c.sched with
+  | none => rw [hs] at h4; cases h4
+  | some s =>
+    refine Or.inr ⟨⟨s.nextHandle, now + c.pingTimeout, some c.pingTimeout, .ping⟩, ?_, ?_⟩
+    · simp [evs, Sched.repeat, R.ok]
+    · simp [tbound, R.ok]
+
+/-- after anything that wants an acknowledgement was sent at `now` (DATA, DISCONNECT, PING, SYN, CONNECT) -/
+theorem unacked_is_doomed (env : Env) (now : Nat) (c : Conn) (p : Packet) (hs : c.sched.isSome)
+    (hp : ((hasReliable p.flags || p.type == TYPE_SYN) && hasNeedAck p.flags) = true) :
+    (c.sendPacket env now p).err.isSome ∨ (c.sendPacket env now p).c.Doomed (now + (c.resendLimit + 1) * c.resendTimeout) :=
+  sendPacket_doomed env now c p hs hp
+
+/-- every keep-alive that fires at `d` (re-)establishes the bound `d + (resend_limit+1)·resend_timeout` -/
+theorem keepalive_rearms (env : Env) (d : Nat) (c : Conn) (hs : c.sched.isSome) :
+    (c.fireOne env d .ping).c.Doomed (d + (c.resendLimit + 1) * c.resendTimeout) :=
+  fireOne_doomed env d c .ping hs
+
 /-! non-vacuity: a fresh client after `handshake()` is exactly in the situation of `connect_bound` -/
 example :
     let c := Conn.new C04.toyEnv (some 1) 1 2 3 ("10.0.0.2", 1) 15 10 ("10.0.0.1", 2) 1 10
@@ -81,6 +130,14 @@ example :
           connectionSignature := some (List.replicate 16 0), signature := some [0] } 0 (0 + c.resendTimeout)) ∧
     (c.handshake C04.toyEnv 0 none).c.linkUp = true := by
   refine ⟨⟨1, 0, ?_⟩, rfl⟩
+  decide
+
+/-! non-vacuity of `silence_bound`: an accepted connection that hears nothing — the run settles and the hypothesis holds -/
+example :
+    let c := (Conn.new C04.toyEnv (some 1) 1 2 3 ("10.0.0.2", 1) 15 10 ("10.0.0.1", 2) 1 10).serve 0
+    let D := 0 + c.pingTimeout + (c.resendLimit + 1) * c.resendTimeout
+    (Conn.advance C04.toyEnv 64 D c).1.Settled D ∧ (Conn.advance C04.toyEnv 64 D c).1.state = STATE_DISCONNECTED := by
+  simp only []
   decide
 
 end Nx.C02
